@@ -125,6 +125,30 @@ def run(ctx):
         kinds = set()
         for r in restores:
             kinds.add("reassign" if isinstance(r.ast, ast.Assign) else "delete")
+        # "no previous value" is recognised as `prev is None`; deleting is the exact restore only if the attribute is never *present with value None*
+        if "delete" in kinds:
+            none_stores = []
+            for f_ in repo.all_functions():
+                if f_ is ac:
+                    continue
+                for n_ in walk_no_nested(f_.node):
+                    tg_, val_ = None, None
+                    if isinstance(n_, ast.Assign):
+                        tg_, val_ = n_.targets, n_.value
+                    elif isinstance(n_, ast.AnnAssign) and n_.value is not None:
+                        tg_, val_ = [n_.target], n_.value
+                    elif isinstance(n_, ast.Call) and isinstance(n_.func, ast.Name) and n_.func.id == "setattr" and len(n_.args) == 3 and isinstance(n_.args[1], ast.Constant) and n_.args[1].value == ATTR:
+                        tg_, val_ = [ast.Attribute(value=n_.args[0], attr=ATTR, ctx=ast.Store())], n_.args[2]
+                    if tg_ is None or not any(isinstance(t, ast.Attribute) and t.attr == ATTR for t in tg_):
+                        continue
+                    may_none = any(isinstance(x, ast.Constant) and x.value is None for x in ([val_] if isinstance(val_, ast.Constant) else
+                                   ([val_.body, val_.orelse] if isinstance(val_, ast.IfExp) else (val_.values if isinstance(val_, ast.BoolOp) else []))))
+                    if may_none:
+                        none_stores.append((f_, n_))
+            ctx.decide(not none_stores, "C19.ac", ac.ident, loc_of(none_stores[0][0], none_stores[0][1]) if none_stores else loc_of(ac),
+                       f"no code stores None in {ATTR}: 'previous value is None' means the attribute was absent, so deleting it restores the entry state",
+                       f"{none_stores[0][0].ident if none_stores else ''} stores None in {ATTR}, but the context manager restores a previous value of None by deleting the attribute: "
+                       "an instance that entered with the attribute present (None) leaves without it -- not the entry state, and a direct read of the attribute then raises AttributeError", disc="absent")
         ctx.decide(kinds == {"reassign", "delete"}, "C19.ac", ac.ident, loc_of(ac), "restore deletes the attribute when there was none before and reassigns the previous value otherwise",
                    f"restore only handles {sorted(kinds)}: one of (no previous value / previous value) is not restored to its entry state", disc="both")
         # the branch taken depends on prev being None
@@ -258,6 +282,7 @@ def _ancestors(root, node):
 _A = "src/aspire/aspire.py"
 _U = "src/aspire/utils.py"
 MUTANTS = [
+    M("defaults initialised to None in the constructor (restore still deletes the attribute)", _A, "self._flow = flow\n        self._sampler = None", "self._flow = flow\n        self._sampler = None\n        self._checkpoint_defaults = None", "C19.ac"),
     M("no finally", _A, "try:\n            yield self\n        finally:\n            if prev is None:", "yield self\n        if True:\n            if prev is None:", "C19.ac"),
     M("previous read after the overwrite", _A, "prev = getattr(self, \"_checkpoint_defaults\", None)\n        self._checkpoint_defaults = {", "self._checkpoint_defaults = {", "C19.ac",
       more=[("\"saved_flow\": False,\n        }\n        try:", "\"saved_flow\": False,\n        }\n        prev = getattr(self, \"_checkpoint_defaults\", None)\n        try:")]),
